@@ -240,7 +240,11 @@ func parseHeaders(h *protocol.RequestHeader, buf []byte) (int, error) {
 					if bytes.Equal(s.Value, bytestr.StrClose) {
 						h.SetConnectionClose(true)
 					} else {
-						h.SetConnectionClose(false)
+						// the option is a case-insensitive token in a list that may come
+						// on several lines: "Close", "TE, close", "close" and then "TE"
+						if ext.HasHeaderValue(s.Value, bytestr.StrClose) {
+							h.SetConnectionClose(true)
+						}
 						h.AddArgBytes(s.Key, s.Value, protocol.ArgsHasValue)
 					}
 					continue
